@@ -19,6 +19,8 @@ HARNESSES = [
     kani.H("c03_alias_1", "1 label, names/values aliasing prefixes of one buffer; == is content equality", "strings '', 'a', 'ab' aliasing", 300, **ST),
     kani.H("c03_triple_1", "triples, 1 label: Eq transitive, cmp transitive (strict and non-strict)", S1, 400, **ST),
     kani.H("c03_hash_1", "a==b => identical std-Hash byte stream and get_hash(); get_hash stable, survives clone", S1 + "; KeyHasher stubbed by a rotate/xor fold", 400, **ST),
+    kani.H("c03_extra_labels_hash", "with_extra_labels on an already hashed base key (eager constructors, static key after get_hash): equal to, ordered and hashed like the directly built key", S1, 600, **ST),
+    kani.H("c03_same_name_two_labels", "two labels with one name in either order: equal keys hash alike (and unequal ones are not cmp-Equal)", S1, 600, **ST),
     kani.H("c03_hash_2", "same, 2 labels", S1, 900, tier="thorough", **ST),
     kani.H("c03_hash_3", "same, 3 labels (sort arm)", S1, 1800, tier="thorough", **ST),
     kani.H("c03_pair_3", "pair of keys, 3 labels (n<8 sort arm)", S1, 900, tier="thorough", **ST),
